@@ -102,7 +102,7 @@ class kPathCover(pathmodel.AbstractPathModelDAG):
                 raise ValueError(f"The input graph G has no nodes. Please provide a graph with at least one node.")
             # NodeExpandedDiGraph needs to have flow_attr on edges, otherwise it will add the edges to edges_to_ignore
             G_with_flow_attr = deepcopy(G)
-            node_flow_attr = id(G_with_flow_attr) + "_flow_attr"
+            node_flow_attr = str(id(G_with_flow_attr)) + "_flow_attr"
             for node in G_with_flow_attr.nodes():
                 G_with_flow_attr.nodes[node][node_flow_attr] = 0 # any dummy value
             self.G_internal = nedg.NodeExpandedDiGraph(G_with_flow_attr, node_flow_attr=node_flow_attr)
